@@ -61,7 +61,11 @@ def run_job(job, zstats):
     res = xh.explore(fn, doms, job['fixed'], job['timeout'],
                      per_path_timeout=ob.per_path_timeout)
   else:
-    r = ob.fn(**job['fixed'])
+    kw = dict(job['fixed'])
+    import inspect
+    if 'regions' in inspect.signature(ob.fn).parameters:
+      kw['regions'] = tuple(job.get('regions') or ())
+    r = ob.fn(**kw)
     st = {'unsat': 'exhausted', 'sat': 'refuted', 'unknown': 'unknown'}.get(
         r.get('status'), r.get('status'))
     res = dict(status=st, paths=r.get('queries', 1), confirmed_paths=0,
